@@ -160,3 +160,25 @@ Proof.
   destruct (drx_run chan (flat_map sys_dops ops) (duart_new now) [] []) as [[d' E'] D'].
   split; [exact H|]. cbn in Hd. rewrite Hd, sys_run_duart. reflexivity.
 Qed.
+
+(* C09 for guest addresses: over every such interleaving in which the writes to a channel's transmit register are
+   made while its status shows TxRDY (and the channel's transmitter is not reset nor put in loop-back): what the
+   host's polls returned ++ what is still in the channel's pipeline = what the guest wrote, exactly and in order *)
+Theorem guest_tx_exactly_once chan ops now :
+  match dtx_run chan (flat_map sys_dops ops) (duart_ (bus_new now)) [] [] with
+  | Some (d', W', Q') =>
+    Q' ++ tx_pipe (port_of chan d') = W' /\ d' = duart_ (fold_left (fun s o => sys_step o s) ops (bus_new now))
+  | None => True
+  end.
+Proof.
+  change (duart_ (bus_new now)) with (duart_new now).
+  pose proof (device_tx_exactly_once_in_order chan (flat_map sys_dops ops) (duart_new now) [] [] (dinv_new now)) as H.
+  assert (Hd : forall l d W Q d' W' Q', dtx_run chan l d W Q = Some (d', W', Q') -> d' = drun l d).
+  { induction l as [|o t IH]; intros d W Q d' W' Q'; cbn [dtx_run drun].
+    - intros E; inversion E; reflexivity.
+    - destruct (dev_tx_ok chan d o); [apply IH | discriminate]. }
+  destruct (dtx_run chan (flat_map sys_dops ops) (duart_new now) [] []) as [[[d' W'] Q']|] eqn:E; [|exact I].
+  split.
+  - apply H; destruct chan; reflexivity.
+  - rewrite (Hd _ _ _ _ _ _ _ E), sys_run_duart. reflexivity.
+Qed.
